@@ -47,6 +47,10 @@ def _trig(w, kind, who='A'):
     return ('due', who, 0, {'rekey-ike': 'rekey_ike', 'delete-ike': 'delete_ike', 'dpd': 'dpd'}[kind])
 
 
+class NotSent(Exception):
+    pass
+
+
 def build_request(kind):
     """world in which the tracked request has just been emitted for the first time; returns (w, tracked)"""
     base = kind.replace('-invalid-ke', '').replace('-cookie', '')
@@ -76,6 +80,9 @@ def build_request(kind):
             if kind.endswith('invalid-ke'):
                 w.step(('deliver', w.net[0].id))
                 w.step(('deliver', w.net[0].id))
+    if not w.net and all(e.alive for e in w.endpoints.values()):
+        # the local trigger (kernel event or a timer that has come due) did not make the daemon send its request at all
+        raise NotSent(kind)
     if len(w.net) != 1 or w.net[0].sender != 'A':
         raise HarnessError('%s: expected exactly the tracked request in flight, have %r' % (kind, w.net))
     d = w.net[0]
@@ -207,7 +214,10 @@ def retrans_cases():
 def work_retrans(case):
     kind, lr, lp, ticks, fine = case[:5]
     oneway = len(case) > 5 and case[5]
-    obs = run_retrans(kind, set(lr), set(lp), list(ticks), oneway=oneway)
+    try:
+        obs = run_retrans(kind, set(lr), set(lp), list(ticks), oneway=oneway)
+    except NotSent:
+        return [('request-never-sent', 'the %s request is not sent at all when its trigger fires (timer due / kernel event)' % kind)], (0, False, False)
     res = judge_retrans(kind, obs, fine)
     outcome = (len(obs['tx']), obs['accepted_at'] is not None, bool(obs['still_held']))
     return [(sig, msg) for sig, msg in res], outcome
